@@ -26,9 +26,9 @@ import EpModel.Lemmas.SpecShiftEntry
       (Lemmas/SpecShift.lean: `step_shift` for every branch of `Spec.step`, `chain_shift`, `walkN_shift`;
       the link field is not touched behind the link layer, `walkN_link`; 7 steps suffice from an ether
       type, `walkN_fuel`), which gives `Spec.decode .eth` = `Spec.decode (.etherType _)` on the shifted
-      memory for strict and lax decoding as an EQUATION; the refinements of C03 / C05 carry it to the
-      four doors: `from_ethernet(b)` and `from_ether_type(et(b), b[14..])` accept the same byte strings, on
-      success return the same packet with every window moved by 14 (link: Ethernet II frame / ether
+      memory for strict and lax decoding as an EQUATION; the refinements of C03 / C05 carry it to
+      `SlicedPacket` / `LaxSlicedPacket`: `from_ethernet(b)` and `from_ether_type(et(b), b[14..])` accept
+      the same byte strings, on success return the same packet with every window moved by 14 (link: Ethernet II frame / ether
       payload), on failure return errors that describe one and the same wire-format fault, seen 14
       bytes apart (so `layer_start_offset` differs by exactly 14, `len` / `required_len` agree); lax: the
       same layers in front of the stop, a stop error in one iff in the other, at the same layer,
@@ -36,7 +36,10 @@ import EpModel.Lemmas.SpecShiftEntry
       give: that the two errors are the *same value* up to the offset where `ErrMatch` leaves a choice
       (e.g. which of two crate layers names an ICMPv4 fault, the `len_source` where it may be the slice
       or the limiting field); that part stays with the correspondence check, which runs both doors.
-  Not proved (checked by correspondence + oracle only): the remaining header readers (C16 models their I/O).
+  Not proved (checked by correspondence + oracle only): Ethernet II start vs ether-type start for the
+  struct families `PacketHeaders` / `LaxPacketHeaders` (C03 / C05 refine the slice families `SlicedPacket` /
+  `LaxSlicedPacket` only; the oracle compares all four families after shifting by 14); the remaining
+  header readers (C16 models their I/O).
 -/
 namespace EpModel.Props.C06
 open EpModel EpModel.Dec EpModel.Lemmas.Refine EpModel.Lemmas.Copies
